@@ -110,8 +110,13 @@ class Corpus:
         self.meta = json.load(open(os.path.join(VERIF, "corpus", "kernels", "META.json")))
         self.programs = {}
         self.rule_level_only = {}
+        only = os.environ.get("VERIF_ONLY")       # development knob (never set by a registered command): kernels to keep
+        if only:
+            want_random = False
         for f in sorted(glob.glob(os.path.join(VERIF, "corpus", "kernels", "*.eql"))):
             name = os.path.basename(f)[:-4]
+            if only and name not in only.split(","):
+                continue
             shutil.copy(f, os.path.join(self.src, name + ".eql"))
             if self.meta.get(name, {}).get("rule_level_only"):
                 self.rule_level_only[name] = {"kind": "kernel"}      # compiled with the corpus, but not part of the state-level lemmas
